@@ -200,6 +200,19 @@ def cases_metrics(a, d, n, gname=''):
                 v = float(tree_sampling_divergence(a.copy(), d.copy(), weights=weights, normalized=norm))
                 return 'ok ' + repr(v)
             impl = _call(g)
+            canon = 'bits'
+            if norm and impl.startswith('ok '):
+                # the quotient score / mutual_information is ill-conditioned when the mutual information is small: both
+                # sums carry an absolute rounding error of a few 1e-16 (p log(p/q) with p/q close to 1), so the quotient
+                # is known to about 2e-14 / mutual_information only; the comparison allows that much on top of TOL
+                try:
+                    vu = float(tree_sampling_divergence(a.copy(), d.copy(), weights=weights, normalized=False))
+                    vn = float(impl[3:])
+                    mi = vu / vn if vn > 0 and vu > 0 else None
+                except Exception:
+                    mi = None
+                if mi is not None and mi > 0:
+                    canon = 'bits:%r' % mi
             run = 'c08.tsd %d %s %s %s %s' % (n, mt, dt, deg, enc_bool(norm))
             spec = None
             if impl.startswith('ok '):
@@ -211,7 +224,7 @@ def cases_metrics(a, d, n, gname=''):
             c = Case(('tsd', mt, dt, weights, norm), {'entry': 'tree_sampling_divergence', 'weights': weights, 'normalized': norm},
                      run, impl, spec, nontriv,
                      {'f': 'tree_sampling_divergence', 'graph': gdesc, 'dendrogram': _ddesc(d), 'weights': weights, 'normalized': norm},
-                     canon='bits')
+                     canon=canon)
             c.tol = admissible
             out.append(c)
 
@@ -285,10 +298,13 @@ def _same(c, model, impl, spec_ok):
         m = float(Fraction(model[3:]))
         v = float(impl[3:])
         return abs(m - v) <= TOL * (1 + abs(m))
-    if c.canon == 'bits' and model.startswith('ok') and impl.startswith('ok'):
+    if str(c.canon).startswith('bits') and model.startswith('ok') and impl.startswith('ok'):
         m = dd.float_from_bits(model[3:])
         v = float(impl[3:])
-        return abs(m - v) <= TOL * (1 + abs(m))
+        extra = 0.0
+        if ':' in c.canon:
+            extra = 2e-14 / max(float(c.canon.split(':', 1)[1]), 1e-10)      # at most 2e-4, at the threshold of the guard
+        return abs(m - v) <= TOL * (1 + abs(m)) + extra
     return False
 
 
